@@ -27,7 +27,8 @@ func init() {
 		Level: "exploration",
 		Rule: "all 121 signed/unsigned element-type pairs of the four fixed->fixed conversions; source codes enumerated in ascending amplitude: every value of 8- and 16-bit source types in every tier, every value of 32-bit source types in the thorough tier (22 pairs x 2^32, split into segments stitched by one overlapping code), boundary-dense (+-3 around +-2^k, 1.5*2^k, bounds, dense runs at both ends and around zero) + seeded random values for 64-bit sources (and for 32-bit sources in the quick tier); " +
 			"oracle: result amplitudes non-decreasing along the enumeration (= the full pairwise order relation, by transitivity), lowest->lowest, highest->highest, zero-amplitude->zero-amplitude; " +
-			"distinct = (instantiation, source code) pairs, each enumerated exactly once; every pair is non-trivial (one library conversion compared with its predecessor in amplitude order)",
+			"distinct = (instantiation, source code) pairs, each enumerated exactly once; every pair is non-trivial (one library conversion compared with its predecessor in amplitude order); " +
+			"also: conversions into a shorter destination with spare capacity first, sources last written as a whole by another conversion and then filled through a second view",
 		Assume:    []string{"amplitude of an unsigned code is code - 2^(depth-1); int, uint and uintptr are 64-bit on this platform"},
 		Exhaustiv: "8- and 16-bit sources always, 32-bit sources in the thorough tier; 64-bit sources are sampled",
 		Plan:      fixedPlan,
